@@ -16,7 +16,7 @@ PROPS["C07"] = dict(
     quick=[("asan", 8, 400), ("plain0", 4, 400)],
     thorough=[("asan", 16, 6000), ("plain0", 16, 6000), ("plain", 16, 6000), ("memcheck", 8, 20, {"budget": 900})],
     stack_mb=256,
-    floors={"quick": {"kind_pairs": 400, "inner_handled_outer_normal": 1, "propagated_2_levels": 1, "throw_from_handler": 1,
+    floors={"quick": {"kind_pairs": 400, "thrown_object_identity_checks": 48, "inner_handled_outer_normal": 1, "propagated_2_levels": 1, "throw_from_handler": 1,
                       "uncaught_child_runs": 20, "lexical_programs": 100, "deep_nests": 4}},
     rule="case = 1-4 generated try/throw/catch program trees (<=60 nodes, depth<=12, 8 filter sets over 4 exception "
          "kinds, throws from bodies, called functions and handlers) executed with the real macros, or one of 5 "
@@ -207,7 +207,7 @@ PROPS["C01"] = dict(
     floors={"quick": {"forced_collections": 50, "threshold_collections_that_freed_something": 10,
                       "sweeps_that_freed_something": 10, "rootkind_checked:stack": 1,
                       "rootkind_checked:root-holder": 1, "rootkind_checked:thread-local": 1, "rings": 1,
-                      "complete_graphs": 1, "rooted_shapes": 4, "root_holders_stored_in_thread_local_storage": 10,
+                      "complete_graphs": 1, "deep_copies_checked": 5000, "rooted_shapes": 4, "root_holders_stored_in_thread_local_storage": 10,
                       "root_holders_referenced_by_another_root_holder": 1, "edges_to_root_holders": 10,
                       "chains_of_1e6": 1, "container_bursts": 10, "cases_run_in_a_worker_thread": 20, "explicit_deletions": 5,
                       "boxes": 10}},
@@ -291,7 +291,7 @@ PROPS["C05"] = dict(
     floors={"quick": {"table_replace_under_collision": 20, "table_states_with_25_or_more_bindings": 20,
                       "cross_kind_assigns": 10, "same_kind_assigns": 10, "copies": 20, "clears": 20,
                       "sort_swap_moves": 10, "concats": 10, "box_container_operations": 200,
-                      "box_containers_deleted": 20, "cases_with_collector_stopped": 5, "tree_updates": 20}},
+                      "box_containers_deleted": 20, "box_containers_left_to_the_collector": 20, "cases_with_collector_stopped": 5, "tree_updates": 20}},
     rule="case = 8 containers driven through 40-200 (thorough: up to 540) random operations with the ledger and model "
          "oracles after every operation, or one Box container through 40-160 operations; distinct = hash of the "
          "operation list; non-trivial = at least 20 operations",
